@@ -12,8 +12,11 @@ def validate_run(ctx, path, k, results):
     sub.cov = {"tlc_runs": [], "drift": []}
     sub.work = ctx.path("w%d" % k)
     os.makedirs(sub.work, exist_ok=True)
-    r = vlib.run_tlc(sub, "trace/Trace_Worker.tla", "trace/Trace_Worker.cfg", workers=1, timeout=600, env={"TRACE": path},
-                     dfs=True, heap="2g", keep_vec=False)
+    # runs over hundreds of files are judged on their outcome and on counting facts of their events only
+    big = vlib.nth_line(path, 1).get("n_files", 0) > 100
+    spec = "Trace_WorkerBig" if big else "Trace_Worker"
+    r = vlib.run_tlc(sub, "trace/%s.tla" % spec, "trace/%s.cfg" % spec, workers=1, timeout=900, env={"TRACE": path},
+                     dfs=True, heap="4g", keep_vec=False)
     verdict = None
     for t in r.tuples:
         v = vlib.parse_tla_tuple(t)
